@@ -102,10 +102,68 @@ type Obs struct {
 }
 
 type Program struct {
-	Scope string  `json:"scope"`
-	Tag   string  `json:"tag"`
-	Stmts []*Stmt `json:"stmts"`
-	Exp   []Obs   `json:"exp"`
+	Scope string         `json:"scope"`
+	Tag   string         `json:"tag"`
+	Stmts []*Stmt        `json:"stmts"`
+	Exp   []Obs          `json:"exp"`
+	Fin   map[string]Val `json:"fin"` // what a header receives from the final value of each pooled name (t = "SKIP": not compared)
+}
+
+// ExportName is the header a whole-program run copies the pooled name n to before the subroutine returns.
+func ExportName(n string) string { return "req.http.E-" + n }
+
+// ParseSubroutine parses `sub <name> [TYPE] { body }` and returns its declaration.
+func ParseSubroutine(src string) (*ast.SubroutineDeclaration, error) {
+	v, err := parser.New(lexer.NewFromString(src)).ParseVCL()
+	if err != nil {
+		return nil, err
+	}
+	if len(v.Statements) != 1 {
+		return nil, fmt.Errorf("expected one declaration, got %d", len(v.Statements))
+	}
+	sub, ok := v.Statements[0].(*ast.SubroutineDeclaration)
+	if !ok {
+		return nil, fmt.Errorf("not a subroutine")
+	}
+	return sub, nil
+}
+
+// RunSub executes a subroutine declaration in its own frame: through ProcessSubroutine, or through
+// ProcessFunctionSubroutine when functional (the statement loop the interpreter keeps for functional subroutines).
+func (m *Machine) RunSub(sub *ast.SubroutineDeclaration, functional bool) (out Outcome) {
+	defer func() {
+		if r := recover(); r != nil {
+			out = Outcome{Kind: "crash", Msg: fmt.Sprint(r)}
+		}
+	}()
+	var err error
+	if functional {
+		_, _, err = m.IP.ProcessFunctionSubroutine(sub, interpreter.DebugPass, nil)
+	} else {
+		_, err = m.IP.ProcessSubroutine(sub, interpreter.DebugPass, nil)
+	}
+	if err != nil {
+		msg := err.Error()
+		if i := strings.Index(msg, "\n"); i > 0 {
+			msg = msg[:i]
+		}
+		return Outcome{Kind: "error", Msg: msg}
+	}
+	return Outcome{Kind: "ok"}
+}
+
+// ReadConcrete projects a variable given by its concrete name.
+func (m *Machine) ReadConcrete(name string) (g Got) {
+	defer func() {
+		if r := recover(); r != nil {
+			g = Got{T: "CRASH", Str: fmt.Sprint(r)}
+		}
+	}()
+	v, err := m.IP.ProcessExpression(ident(name))
+	if err != nil {
+		return Got{T: "UNDECL"}
+	}
+	return Project(v)
 }
 
 // ---------------------------------------------------------------- concretize
